@@ -208,6 +208,11 @@ class CallMixin:
                         return k("(Py.Range.mk 0 {})".format(acc[0]), RANGE)
                     if len(acc) == 2:
                         return k("(Py.Range.mk {} {})".format(acc[0], acc[1]), RANGE)
+                    step = e.args[2]
+                    if isinstance(step, ast.UnaryOp) and isinstance(step.op, ast.USub):
+                        step = step.operand
+                    if isinstance(step, ast.Constant) and isinstance(step.value, int) and step.value != 0:
+                        return k("(Py.rangeStep {} {} {})".format(*acc), TList(INT))
                     return self.bind("Py.range3 {} {} {}".format(*acc), TList(INT), k, "r")
                 return self.as_int(vs[i][0], vs[i][1], lambda v: ints(i + 1, acc + [v]))
             return ints(0, [])
@@ -313,6 +318,8 @@ class CallMixin:
 
     # ------------------------------------------------------------ translated functions and methods
     def emit_call(self, fn, argcodes, k):
+        if fn.unsupported is not None or fn.ret is None:
+            raise Unsupported("callee {} is outside the subset".format(fn.lean))
         code = " ".join([fn.lean] + ["({})".format(a) if " " in a and not a.startswith("(") and not a.startswith("[") else a
                                     for a in argcodes])
         if fn.monadic:
